@@ -626,6 +626,14 @@ def _c16():
             self._g.add_edge(npar, c, None)
             pn = [npar if i == eidx else i for i in self._g.attrs["pnames"][c]]
             self._g.attrs["pnames"][c] = list(dict.fromkeys(pn))''', silent=["C16", "C05", "C14", "C15"])
+    R("c16-phases-zero-value-replaced-by-nominal", S, '''                        if p == "N/A":
+                            pwr += [self._g[n]._params["pwr"]]
+                        else:
+                            pwr += [self._phase_lkup[n][p]]''', '''                        pwr += [self._phase_lkup[n].get(p) or self._g[n]._params["pwr"]]''', fires=["C16"], note="a configured 0 W is shown as the nominal power")
+    R("eq-phases-value-by-membership", S, '''                        if p == "N/A":
+                            pwr += [self._g[n]._params["pwr"]]
+                        else:
+                            pwr += [self._phase_lkup[n][p]]''', '''                        pwr += [self._phase_lkup[n][p] if p in self._phase_lkup[n] else self._g[n]._params["pwr"]]''', silent=["C16", "C06", "C17"])
     R("c16-phases-value-in-wrong-column", S, '''                    if "pwr" in self._g[n]._params:
                         rs += [""]
                         ii += [""]
